@@ -48,6 +48,18 @@ class C19(Prop):
             for rep in range(3):
                 f = gen.struct_case(rng, src, ["prepare:opt", "exec:0", "exec:0"], objs=[dollar])
                 out.append(Case("run", f, "dollar-keys", group="D%d" % gid, note=src))
+        # the object is a map that has keys which are not strings next to its string keys (what YAML decoders produce): every string key
+        # is a field, in whatever order the map hands its keys out
+        mixed = "J(%s=S%s,%s=I0.42,%s=B1,%s=Li(S%s,S%s))" % (vlib.hx("Name"), vlib.hx("Steve"), vlib.hx("Count"), vlib.hx("Active"), vlib.hx("Tags"), vlib.hx("a"), vlib.hx("b"))
+        for src, want in [("return [Name, Count, Active, Tags];", ["Steve", 42, True, ["a", "b"]]), ("return string(Name) + \"/\" + string(Count) + \"/\" + string(Active);", "Steve/42/true"),
+                          ("n = 0; if (Name) { n++; } if (Count) { n++; } if (Active) { n++; } if (Tags) { n++; } return n;", 4)]:
+            gid += 1
+            for rep in range(6):
+                f = gen.struct_case(rng, src, ["prepare:opt"] + ["exec:0"] * 6, objs=[mixed])
+                exp = {}
+                for k in range(6):
+                    exp["o%d.class" % (k + 3)] = "ok"; exp["o%d.value" % (k + 3)] = gen.enc_value(want)
+                out.append(Case("run", f, "mixed-key-map", group="D%d" % gid, expect=exp, note=src))
         # printed forms never show memory addresses (known finding D46: the %p verb of sprintf/printf does)
         for src in ['return sprintf("%p", [1, 2]);', 'return sprintf("%p", {"a": 1});', 'x = [1]; return sprintf("%v %p", x, x);', 'return sprintf("%p", "s");']:
             gid += 1
